@@ -949,3 +949,13 @@ VARIANTS += [
     dict(prop="C12", name="excluded-direction-sides-swapped", expect="SHARE-excluded|zero-towards-excluded-helper",
          edits=[dict(file="ipa-core/src/secret_sharing/replicated/mod.rs", find="            Direction::Left => Self::new(V::ZERO, v),\n            Direction::Right => Self::new(v, V::ZERO),", replace="            Direction::Left => Self::new(v, V::ZERO),\n            Direction::Right => Self::new(V::ZERO, v),")]),
 ]
+
+VARIANTS += [
+    dict(prop="C03", name="batch-empty-if-any-gate-empty", expect="PATH-verdict|Batch::is_empty:all-gates-empty",
+         edits=[dict(file=DVF, find="        self.inner.is_empty() || self.inner.values().all(MultiplicationInputsBatch::is_empty)", replace="        self.inner.is_empty() || self.inner.values().any(MultiplicationInputsBatch::is_empty)")]),
+]
+
+VARIANTS += [
+    dict(prop="C03", name="batch-first-record-off-by-one-batch", expect="PACK-slots|batch-origin",
+         edits=[dict(file=DVF, find="                    .then(|| RecordId::from(batch_index * max_multiplications_per_gate));", replace="                    .then(|| RecordId::from((batch_index + 1) * max_multiplications_per_gate - max_multiplications_per_gate.min(batch_index)));")]),
+]
